@@ -2,7 +2,15 @@ import Taskpool.Inv.ControlParse
 import Taskpool.Model.Control.Session
 /-! C16 — any pool can be served: the handshake succeeds, the command surface is exactly the public members.
 (partial: the help *text* and argparse's formatter are outside the model; they are sampled by the check at the
-terminal widths of the property's quantifier.)  All statements are for an arbitrary member table. -/
+terminal widths of the property's quantifier.)  All statements are for an arbitrary member table.
+
+Hypothesis of every theorem that mentions a table: `wellFormed ms` (Model/Control.lean) — member names are distinct
+ASCII identifiers and, for every exposed member, `paramsOk`: parameter names are distinct identifiers, no option is
+called `help` (F1), no option starts with `_` (F2), no parameter is called `command` (F4).  Python itself guarantees
+everything but the three exclusions (and ASCII), so F1, F2, F4 are exactly the ways a subclass adding public members can
+leave the theorems' scope; run at those points the real code fails (known findings, witnessed on every run).  Running
+out of flag letters is NOT such a way: `assignFlags` falls back to the long form and `C16_parser_builds` covers it.
+The check evaluates `wellFormed` on the table extracted from the served classes on every run. -/
 namespace Taskpool.Control
 
 /-- a command exists exactly for the public functions and properties of the class, under the dashed name -/
